@@ -290,7 +290,13 @@ def campaign(c):
     alone = batch.run_real([dict(stem='g', src=goodsrc)])
     for j, bad in enumerate([b'x("a"\n@\n', b'import eth;\neth::frame("|00|",\n"abc"\n@);\n', b'import eth;\neth::frame("|00|", "|00|"); x("lit"\n);\n', b'let a = (\n', b'f(1,\n',
                              b'import eth;\nlet z = eth::frame("|000000000001|", "|000000000002|",\n"pending"\n', b'"only a literal"\n\xff\n', b'let s = "q"\n"r"\nnosuch;\n',
-                             b'import nosuch;\n', b'let a = 1; let a = 2; "x"\n']):
+                             b'import nosuch;\n', b'let a = 1; let a = 2; "x"\n',
+                             # run-time failures inside library functions, with and without further arguments still unconsumed
+                             b'import eth;\neth::frame("|00|", "|00|", "payload", "more");\n', b'import eth;\neth::frame("|000000000001|", "|00|", 5, 1.2.3.4);\n',
+                             b'import netbios;\nimport eth;\neth::frame("|000000000001|", "|000000000002|", netbios::name::encode("SIXTEEN-BYTES-XX", "y"));\n',
+                             b'import io;\nimport eth;\neth::frame("|000000000001|", "|000000000002|", io::file("absent.bin"), "tail");\n',
+                             b'import time;\ntime::jump_seconds(18446744073709551615);\ntime::jump_seconds(5);\n',
+                             b'import ipv4;\nipv4::udp::unicast(1.2.3.4:1, 5.6.7.8/70000, "x");\n', b'import text;\ntext::concat(text::concat, "x");\n']):
         for order in ([dict(stem='bad', src=bad), dict(stem='g', src=goodsrc), dict(stem='g2', src=goodsrc)], [dict(stem='g', src=goodsrc), dict(stem='bad', src=bad), dict(stem='g2', src=goodsrc)]):
             impl, model = batch.compare(c, order, what='batch-after-failure')
             for nme in ('g', 'g2'):
